@@ -7,13 +7,56 @@
 //!   miri_sim <scenario-seed> plain|rayon
 //! (seed and mode come by argv, never by plain env: cargo-miri replays build-time env)
 
-use ixthreads::{build_hammer, build_scenario, eval};
+use ixthreads::{apply_edit, build_hammer, build_phased, build_scenario, eval};
 use rayon::prelude::*;
 
 fn main() {
     let args: Vec<String> = std::env::args().collect();
     let seed: u64 = args.get(1).and_then(|s| s.parse().ok()).unwrap_or(1);
     let mode = args.get(2).map(|s| s.as_str()).unwrap_or("plain");
+    if mode == "phased" {
+        // persistent reader threads; the owner edits in place between the two read phases
+        let p = build_phased(seed, 3, 6);
+        let lock = std::sync::RwLock::new(p.arena.clone());
+        let barrier = std::sync::Barrier::new(p.reads1.len() + 1);
+        std::thread::scope(|s| {
+            for t in 0..p.reads1.len() {
+                let (p, lock, barrier) = (&p, &lock, &barrier);
+                s.spawn(move || {
+                    {
+                        let a = lock.read().unwrap();
+                        for (i, r) in p.reads1[t].iter().enumerate() {
+                            assert_eq!(eval(&a, *r, &|| {}), p.exp1[t][i], "phase 1: thread {} read #{} differs from the single-thread result", t, i);
+                        }
+                    }
+                    barrier.wait();
+                    barrier.wait();
+                    let a = lock.read().unwrap();
+                    for (i, r) in p.reads2[t].iter().enumerate() {
+                        assert_eq!(
+                            eval(&a, *r, &|| {}),
+                            p.exp2[t][i],
+                            "phase 2 (after in-place edits by the owner): thread {} read #{} ({:?} from node {}) differs from the single-thread result",
+                            t,
+                            i,
+                            r.kind,
+                            r.node
+                        );
+                    }
+                });
+            }
+            barrier.wait();
+            {
+                let mut a = lock.write().unwrap();
+                for e in &p.edits {
+                    apply_edit(&mut a, e);
+                }
+            }
+            barrier.wait();
+        });
+        println!("miri_sim ok seed={} mode=phased edits={}", seed, p.edits.len());
+        return;
+    }
     let sc = if mode == "hammer" { build_hammer(seed, 3, 10) } else { build_scenario(seed, 3, 6, 16, 8) };
     match mode {
         "rayon" => {
